@@ -56,6 +56,7 @@ fn main() {
         "golden-gen" => std::process::exit(compatx::generate()),
         "bench" => bench(),
         "dbg" => debug_bisim(),
+        "bench-fresh" => bench_fresh(),
         "check" => {
             let id = args.get(2).cloned().unwrap_or_else(|| usage());
             let mut tier = match std::env::var("VERIF_TIER").as_deref() {
@@ -272,24 +273,34 @@ pub fn debug_bisim() {
     iosim::set_track_prefix(&scratch);
     let scs = drivers::scenarios("C06", Tier::Quick);
     let sc = &scs[0];
-    let scratch2 = scratch.clone();
-    let run = move |with_drop: bool, seek: Option<u64>| {
-        let scs = drivers::scenarios("C06", Tier::Quick);
-        let sc = &scs[0];
-        let scratch = scratch2.clone();
-        let path = format!("{}/dbg.db", scratch);
+    let path = format!("{}/dbg.db", scratch);
+    for ai in 0..sc.alphabet.len() {
+        let t = std::time::Instant::now();
         let mut r = Runner::new(&path, sc.cfg.clone()).unwrap();
         for a in &sc.setup { r.step(a, &Oracles::NONE); }
-        if with_drop { r.step(&Action::Tx{ops: vec![refmodel::OpSpec::put(&["b"],"k0","v*8")], commit:false}, &Oracles::NONE); }
-        println!("snapshot before followup: {:?}", r.db().verif_snapshot());
-        let pos = match seek { Some(p) => { println!("seek ok {}", fresh::rs_seek(p)); p } None => fresh::rs_probe() };
-        r.step(&Action::Tx{ops: vec![refmodel::OpSpec::put(&["b"],"k0","v*8")], commit:true}, &Oracles::NONE);
-        println!("snapshot after: {:?}", r.db().verif_snapshot());
-        (r.file_bytes(), pos)
-    };
-    let run2 = run.clone();
-    let (a, pos) = fresh::on_fresh_thread(move || run(true, None)).unwrap(); let (b, _) = fresh::on_fresh_thread(move || run2(false, Some(pos))).unwrap();
-    println!("len {} {}", a.len(), b.len());
-    for (i,(x,y)) in a.chunks(1024).zip(b.chunks(1024)).enumerate() { if x!=y { println!("page {} differs", i); } }
+        let t1 = t.elapsed();
+        let act = sc.alphabet.get(ai);
+        let v = r.step(&act, &sc.oracles);
+        let t2 = t.elapsed();
+        let d = r.digest();
+        let t3 = t.elapsed();
+        let s = act.to_json().to_string();
+        println!("{:3} setup {:?} step {:?} digest {:?} viol {} {}", ai, t1, t2 - t1, t3 - t2, v.len(), &s[..s.len().min(70)]);
+    }
     report::cleanup_scratch(&scratch);
+}
+
+#[allow(dead_code)]
+pub fn bench_fresh() {
+    let t = std::time::Instant::now();
+    for _ in 0..200 {
+        fresh::on_fresh_thread(|| { let mut m = std::collections::HashMap::new(); m.insert(1, 2); m.len() }).unwrap();
+    }
+    println!("fresh thread: {:?} each", t.elapsed() / 200);
+    let t = std::time::Instant::now();
+    for _ in 0..200 {
+        let p = fresh::on_fresh_thread(|| { for _ in 0..300 { let _ = std::collections::hash_map::RandomState::new(); } fresh::rs_probe() }).unwrap();
+        fresh::on_fresh_thread(move || fresh::rs_seek(p)).unwrap();
+    }
+    println!("probe+seek pair: {:?} each", t.elapsed() / 200);
 }
